@@ -83,11 +83,13 @@ func (m *verifRWMutex) canLock() bool { return !m.writer && m.readers == 0 }
 func (m *verifRWMutex) canRLock() bool { return !m.writer && m.pending == 0 }
 
 //go:norace
-func (m *verifRWMutex) note(writer bool, readers, pending int) {
-	m.writer = writer
-	m.readers += readers
-	m.pending += pending
-}
+func (m *verifRWMutex) held(writer bool) { m.writer = writer }
+
+//go:norace
+func (m *verifRWMutex) read(readers int) { m.readers += readers }
+
+//go:norace
+func (m *verifRWMutex) wait(pending int) { m.pending += pending }
 
 // Lock locks for writing.
 func (m *verifRWMutex) Lock() {
@@ -97,14 +99,14 @@ func (m *verifRWMutex) Lock() {
 	}
 	verifYield("lock")
 	if !m.canLock() {
-		m.note(false, 0, 1)
+		m.wait(1) // (must not touch the writer flag: the lock may be held by a writer, possibly for ever)
 		for i := 0; !m.canLock() && i < 1<<20; i++ {
 			verifYield("lock.wait")
 		}
-		m.note(false, 0, -1)
+		m.wait(-1)
 	}
 	m.mu.Lock()
-	m.note(true, 0, 0)
+	m.held(true)
 }
 
 // Unlock unlocks for writing.
@@ -113,7 +115,7 @@ func (m *verifRWMutex) Unlock() {
 		m.mu.Unlock()
 		return
 	}
-	m.note(false, 0, 0)
+	m.held(false)
 	m.mu.Unlock()
 }
 
@@ -128,7 +130,7 @@ func (m *verifRWMutex) RLock() {
 		verifYield("lock.wait")
 	}
 	m.mu.RLock()
-	m.note(false, 1, 0)
+	m.read(1)
 }
 
 // RUnlock undoes a single RLock.
@@ -137,7 +139,7 @@ func (m *verifRWMutex) RUnlock() {
 		m.mu.RUnlock()
 		return
 	}
-	m.note(false, -1, 0)
+	m.read(-1)
 	m.mu.RUnlock()
 }
 
